@@ -424,6 +424,7 @@ func runC15(c *Ctx) {
 	}
 	if c.Prop == "C15" {
 		ruleKeyTypeAgreement(c, "C15.8")
+		c04PageLSN(c, "C15.9")
 	}
 }
 
@@ -514,7 +515,14 @@ func runC16(c *Ctx) {
 			o.Rule = "C16.3"
 			c.Obs = append(c.Obs, o)
 		}
+		// a refusal while clean pages are cached makes statement outcomes depend on the cache size
+		if o.Rule == "C15.4" || o.Rule == "C15.5" {
+			o.Rule = "C16.9"
+			c.Obs = append(c.Obs, o)
+		}
 	}
+	c.Rule("C16.9", "the cache refuses an insertion only when every cached page is dirty (C15.4, C15.5): a refusal while clean pages remain makes a statement fail with a small cache that succeeds with a large one")
+	c04PageLSN(c, "C16.10")
 	c11MarkDirty(c, "C16.4")
 	c08SizeGuard(c, "C16.4s")
 	ruleKeyTypeAgreement(c, "C16.7")
